@@ -244,6 +244,14 @@ func c19Schema() *schema.BodySchema {
 				Attributes: map[string]*schema.AttributeSchema{"must": {Constraint: schema.AnyExpression{OfType: cty.String}, IsRequired: true}, "opt": anyOf(cty.String),
 					"tags": {Constraint: schema.AnyExpression{OfType: cty.Map(cty.String)}, IsOptional: true, Address: &schema.AttributeAddrSchema{Steps: schema.Address{schema.StaticStep{Name: "req"}, schema.AttrNameStep{}}, ScopeId: "sq", AsReference: true, AsExprType: true}}},
 				Blocks: map[string]*schema.BlockSchema{"link": {Body: &schema.BodySchema{Attributes: map[string]*schema.AttributeSchema{"peer": {Constraint: schema.AnyExpression{OfType: cty.String}, IsRequired: true}, "via": anyOf(cty.String)}}}}}},
+			// dependent bodies selected by an attribute value: sibling blocks of one type select different bodies
+			"svc": {Labels: []*schema.LabelSchema{{Name: "name"}},
+				Body: &schema.BodySchema{Attributes: map[string]*schema.AttributeSchema{"kind": {Constraint: schema.LiteralType{Type: cty.String}, IsOptional: true, IsDepKey: true}}},
+				DependentBody: map[schema.SchemaKey]*schema.BodySchema{
+					depKey(nil, []schema.AttributeDependent{attrDep("kind", cty.StringVal("web"))}): {Attributes: map[string]*schema.AttributeSchema{"port": anyOf(cty.String)},
+						Blocks: map[string]*schema.BlockSchema{"tls": {Body: &schema.BodySchema{Attributes: map[string]*schema.AttributeSchema{"cert": anyOf(cty.String)}}}}},
+					depKey(nil, []schema.AttributeDependent{attrDep("kind", cty.StringVal("db"))}): {Attributes: map[string]*schema.AttributeSchema{"engine": anyOf(cty.String)}},
+				}},
 			"plain": {Body: &schema.BodySchema{Attributes: map[string]*schema.AttributeSchema{"s": anyOf(cty.String)}}},
 		},
 	}
@@ -311,6 +319,9 @@ func c19Configs() [][]citem {
 		nested = append(nested, attr("x", cStr("x")), attr("y", cNum("1")), attr("tags", cObj("k", cStr("v"))))
 		out = append(out, []citem{blk("resource", []string{"aws", "many"}, nested...)})
 	}
+	// sibling blocks of one type whose dependent bodies are selected by different attribute values (both orders)
+	out = append(out, []citem{blk("variable", []string{"a"}), blk("svc", []string{"a"}, attr("kind", cStr("web")), attr("port", cRef("var.a")), blk("tls", nil, attr("cert", cStr("c")))), blk("svc", []string{"b"}, attr("kind", cStr("db")), attr("engine", cRef("var.a")))})
+	out = append(out, []citem{blk("variable", []string{"a"}), blk("svc", []string{"b"}, attr("kind", cStr("db")), attr("engine", cRef("var.a"))), blk("svc", []string{"a"}, attr("kind", cStr("web")), attr("port", cRef("var.a")), blk("tls", nil, attr("cert", cStr("c"))))})
 	// several resources
 	out = append(out, []citem{blk("variable", []string{"a"}), blk("resource", []string{"aws", "one"}, attr("x", cStr("1"))), blk("resource", []string{"aws", "two"}, attr("x", cRef("aws.one.x"))), blk("resource", []string{"gcp", "one"}, attr("y", cNum("3")))})
 	return out
@@ -468,7 +479,7 @@ func c19ConsForms() []cval {
 	return []cval{cStr("x y"), cStr("foo !"), cStr(""), cNum("3"), cBool("true"), cRef("decl.foo"), cRef("decl.foo.bar"), cTmpl("decl.foo.bar"),
 		cList(), cList(cStr("a b")), cList(cStr("a b"), cRef("decl.foo.bar")), cList(cList(cStr("n n"))), cList(cObj("foo", cStr("x y"))),
 		cObj(), cObj("foo", cStr("x y")), cObj("foo", cStr("x y"), "bar", cBool("true")), cObj("foo", cRef("decl.foo.bar"), "bar", cRef("decl.foo")), cObj("k", cObj("foo", cList(cNum("1"), cNum("2")))),
-		cObj("foo", cList(cStr("a b"), cStr("b c")))}
+		cObj("foo", cList(cStr("a b"), cStr("b c"))), cObj("zz", cRef("decl.foo.bar"))}
 }
 
 // c19ConsConfigs: the three places of a one-constraint body.
@@ -479,6 +490,9 @@ func c19ConsConfigs(f cval) [][]citem {
 		{decl, attr("attr", f)},
 		{decl, attr("attr2", f)},
 		{decl, {block: "blk", body: []citem{attr("attr", f), {block: "nb", body: []citem{attr("attr", f)}}}}},
+		// the extension attributes of the block body
+		{decl, {block: "blk", body: []citem{attr("count", cRef("decl.foo.id")), attr("attr", f)}}},
+		{decl, {block: "blk", body: []citem{attr("for_each", cObj("k", cRef("decl.foo.bar"))), attr("attr2", cRef("each.key"))}}},
 	}
 }
 
@@ -493,6 +507,9 @@ func c19PairIn(ent gen.Entry, cfg []citem, arrayForm bool, c *report.Collector, 
 	wj := world.Build(explore.EntrySpec(&ent, []world.FileSpec{{Name: "main.tf.json", Text: js}}))
 	l.Count("pairs", 1)
 	bad := func(clause, what, detail string) {
+		if ent.Cons != nil {
+			what += "/" + ent.Cons.Name
+		}
 		c.Add(&report.Violation{Clause: clause, Site: what, Check: "c19", SchemaID: ent.ID, Files: []report.FileSpec{{Path: "/p0", Name: "main.tf", Text: nat}, {Path: "/p0", Name: "main.tf.json", Text: js}},
 			Detail: detail + "\nnative:\n" + nat + "\njson:\n" + js})
 	}
@@ -529,7 +546,7 @@ func c19PairIn(ent gen.Entry, cfg []citem, arrayForm bool, c *report.Collector, 
 			for i := range pn {
 				// documented loss of precision inside JSON strings: the JSON constraint may be the
 				// unconstrained/dynamic one where native knows the precise type
-				if pn[i].Cons != pj[i].Cons && pj[i].Cons != "/dynamic" && pj[i].Cons != "" {
+				if pn[i].Cons != pj[i].Cons && !allDynamic(pj[i].Cons) {
 					bad("origins:constraints-differ", "origins", fmt.Sprintf("origin %s: native constraints [%s], json [%s]", pn[i].Addr, pn[i].Cons, pj[i].Cons))
 				}
 			}
@@ -583,6 +600,16 @@ func grouped(items []citem) bool {
 	return true
 }
 
+// allDynamic: every constraint of the (comma separated) list is the unconstrained / dynamic one.
+func allDynamic(cons string) bool {
+	for _, c := range strings.Split(cons, ",") {
+		if c != "/dynamic" && c != "" {
+			return false
+		}
+	}
+	return true
+}
+
 func sortSyms(s []projSym) []projSym {
 	out := append([]projSym{}, s...)
 	for i := range out {
@@ -629,7 +656,7 @@ func C19(tier string) int {
 		for _, cfg := range c19ConsConfigs(forms[i%len(forms)]) {
 			c19PairIn(cons[i/len(forms)], cfg, false, c, l)
 		}
-		l.Count("constraint_pairs", 3)
+		l.Count("constraint_pairs", 5)
 	})
 	c.Sample(map[string]any{"native": renderNative(cfgs[0], ""), "json": func() string { b, _ := json.Marshal(renderJSON(cfgs[0], false)); return string(b) }()})
 	_ = lang.Path{}
